@@ -18,6 +18,8 @@ pub mod c09;
 pub mod c10;
 pub mod c04;
 pub mod c05;
+pub mod c17;
+pub mod c06;
 
 pub fn run(prop: &str, rng: &mut R, out: &mut Out, extra: &[String]) -> bool {
     let _ = extra;
@@ -39,6 +41,8 @@ pub fn run(prop: &str, rng: &mut R, out: &mut Out, extra: &[String]) -> bool {
         "C10" => c10::run(rng, out),
         "C04" => c04::run(rng, out),
         "C05" => c05::run(rng, out),
+        "C17" => c17::run(rng, out),
+        "C06" => c06::run(rng, out),
         _ => return false,
     }
     true
